@@ -61,7 +61,7 @@ func (d *mapTypeFieldTextDecoder) Decode(req *protocol.Request, params param.Par
 	var defaultValue string
 	for _, tagInfo := range d.tagInfos {
 		if tagInfo.Skip || tagInfo.Key == jsonTag || tagInfo.Key == fileNameTag {
-			if tagInfo.Key == jsonTag {
+			if tagInfo.Key == jsonTag && !tagInfo.Skip { // `json:"-"`: the body is no source for this field
 				defaultValue = tagInfo.Default
 				found := checkRequireJSON(req, tagInfo)
 				if found {
